@@ -113,7 +113,7 @@ async fn main() -> anyhow::Result<()> {
 
 /// 定期的にユーザー辞書を保存する処理をspawnする
 fn spawn_save_user_pref_per_count(pref: Arc<Mutex<UserPref>>, tx: Receiver<()>) -> JoinHandle<()> {
-    tokio::spawn(async move {
+    tokio::task::spawn_blocking(move || {
         loop {
             if let Ok(()) = tx.recv() {
                 let pref = pref.lock().unwrap();
@@ -132,7 +132,7 @@ fn spawn_save_user_pref_per_count(pref: Arc<Mutex<UserPref>>, tx: Receiver<()>) 
 
 /// 時間ベースでユーザー辞書を保存する処理をspawnする
 fn spawn_periodic_user_pref_save(seconds_per_save: u8, tx: Sender<()>) -> JoinHandle<()> {
-    tokio::spawn(async move {
+    tokio::task::spawn_blocking(move || {
         let mut current = time::SystemTime::now();
 
         loop {
@@ -158,7 +158,7 @@ fn spawn_update_dictionary_with_entry(
     user_pref: Arc<Mutex<UserPref>>,
     tx: Receiver<Entry>,
 ) -> JoinHandle<()> {
-    tokio::spawn(async move {
+    tokio::task::spawn_blocking(move || {
         loop {
             if let Ok(entry) = tx.recv() {
                 #[cfg(chokan_verif)]
@@ -225,7 +225,7 @@ fn define_module(
 
     let store_in_thread = store.clone();
     // ここでのthreadは、後始末する必要がない
-    tokio::spawn(async move {
+    tokio::task::spawn_blocking(move || {
         loop {
             if let Ok(session) = session_receiver.recv() {
                 let (id, candidates, context) = session;
